@@ -15,7 +15,8 @@ type Iterator struct {
 	rng       Range
 	skipRng   Range               // suffix range used by skip-scan mode
 	skipStart int                 // number of prefix fields
-	tree      [maxLevels]treeIter // tree[0] is root
+	tree      []treeIter          // tree[0] is root, len >= bt.treeLevels
+	treeBuf   [maxLevels]treeIter // backing for tree, to avoid allocation
 	leaf      leafIter
 	state     iterState
 	noRange   bool // true if rng is iterator.All, bypasses checkRange
@@ -24,6 +25,8 @@ type Iterator struct {
 	skipGroup string // current prefix group in skip-scan traversal
 }
 
+// maxLevels is the number of tree levels handled without allocation.
+// A btree can have more levels if large keys make the fanout very small.
 const maxLevels = 8
 
 type Range = iface.Range
@@ -37,7 +40,12 @@ const (
 )
 
 func (bt *btree) Iterator() iface.Iter {
-	return &Iterator{bt: bt, state: rewound, rng: iface.All, noRange: true}
+	it := &Iterator{bt: bt, state: rewound, rng: iface.All, noRange: true}
+	it.tree = it.treeBuf[:]
+	if bt.treeLevels > maxLevels {
+		it.tree = make([]treeIter, bt.treeLevels)
+	}
+	return it
 }
 
 // Key returns the current key.
